@@ -96,8 +96,231 @@ static std::string cmd_sname(const std::vector<std::string> &args)
   return buf;
 }
 
+// ---- command layer -----------------------------------------------------------------------------------------
+// snum <hex>                                     -> null | off=<k> num=<hex>
+// saddr <cpu> <syms> <hex>                       -> null addr=<hex> | off=<k> addr=<hex>
+// srange <cpu> <syms> <high hex> <hex>           -> ret=-1 | ret=0 start=<hex> end=<hex>
+// swrite <8|16|32> <cpu> <syms> <hex>            -> bad-address | not-aligned | count=<n> first=<hex> nz=<dump>
+// sprint <8|16|32> <cpu> <syms> <high hex> <hex> -> none | items=<n> lines=<n> first=<hex> last=<hex>
+// swalk <cpu> <cells> <start hex> <end hex>      -> r=<min>-<max>,...    (arguments of the disasm_range calls)
+// svalid <command hex> <arg hex>                 -> ok | no-arg | need-arg | unknown
+// The string is handed over in a heap block of exactly strlen + 1 bytes (ASan sees a read past the NUL).
+
+#define main naken_util_main_in_harness
+#include "main/naken_util.cpp"
+#undef main
+
+static char *safe_heap_str(const std::string &hex)
+{
+  std::string v = unhex(hex);
+  size_t n = strlen(v.c_str());
+  char *p = (char *)malloc(n + 1);
+  memcpy(p, v.c_str(), n);
+  p[n] = 0;
+  return p;
+}
+
+static UtilContext *safe_util(const std::string &cpu, const std::string &syms)
+{
+  UtilContext *util = new UtilContext();
+  util->set_cpu_by_name(cpu.c_str());
+  if (syms != "-")
+  {
+    size_t pos = 0;
+    while (pos < syms.size())
+    {
+      size_t end = syms.find(',', pos);
+      if (end == std::string::npos) { end = syms.size(); }
+      std::string kv = syms.substr(pos, end - pos);
+      size_t eq = kv.find('=');
+      if (eq != std::string::npos)
+      {
+        util->symbols.append(unhex(kv.substr(0, eq)).c_str(), (uint32_t)strtoull(kv.substr(eq + 1).c_str(), NULL, 16));
+      }
+      pos = end + 1;
+    }
+  }
+  capture_take();
+  return util;
+}
+
+static std::string cmd_snum(const std::vector<std::string> &args)
+{
+  if (args.size() != 1) { return "bad-op"; }
+  char *s = safe_heap_str(args[0]);
+  uint32_t num = 0x5a5a5a5a;
+  const char *r = UtilContext::get_num(s, &num);
+  char buf[64];
+  if (r == nullptr) { snprintf(buf, sizeof(buf), "null"); }
+  else { snprintf(buf, sizeof(buf), "off=%ld num=%x", (long)(r - s), num); }
+  free(s);
+  return buf;
+}
+
+static std::string cmd_saddr(const std::vector<std::string> &args)
+{
+  if (args.size() != 3) { return "bad-op"; }
+  UtilContext *util = safe_util(args[0], args[1]);
+  char *s = safe_heap_str(args[2]);
+  uint32_t a = 0x5a5a5a5a;
+  const char *r = util->get_address(s, &a);
+  char buf[64];
+  if (r == nullptr) { snprintf(buf, sizeof(buf), "null addr=%x", a); }
+  else { snprintf(buf, sizeof(buf), "off=%ld addr=%x", (long)(r - s), a); }
+  free(s);
+  delete util;
+  return buf;
+}
+
+static std::string cmd_srange(const std::vector<std::string> &args)
+{
+  if (args.size() != 4) { return "bad-op"; }
+  UtilContext *util = safe_util(args[0], args[1]);
+  util->memory.high_address = (uint32_t)strtoull(args[2].c_str(), NULL, 16);
+  char *s = safe_heap_str(args[3]);
+  uint32_t a = 0, b = 0;
+  int r = util->get_range(s, &a, &b);
+  char buf[96];
+  if (r != 0) { snprintf(buf, sizeof(buf), "ret=-1"); }
+  else { snprintf(buf, sizeof(buf), "ret=0 start=%x end=%x", a, b); }
+  free(s);
+  delete util;
+  return buf;
+}
+
+static std::string cmd_swrite(const std::vector<std::string> &args)
+{
+  if (args.size() != 4) { return "bad-op"; }
+  UtilContext *util = safe_util(args[1], args[2]);
+  char *s = safe_heap_str(args[3]);
+  if (args[0] == "8") { util->write8(s); } else if (args[0] == "16") { util->write16(s); } else { util->write32(s); }
+  std::string out = capture_take();
+  free(s);
+  std::string res;
+  if (out.find("bad address") != std::string::npos) { res = "bad-address"; }
+  else if (out.find("aligned") != std::string::npos) { res = "not-aligned"; }
+  else
+  {
+    int count = -1;
+    unsigned first = 0;
+    const char *w = strstr(out.c_str(), "Wrote ");
+    if (w != NULL) { count = atoi(w + 6); }
+    const char *x = strstr(out.c_str(), "address 0x");
+    if (x != NULL) { first = (unsigned)strtoul(x + 10, NULL, 16); }
+    char buf[64];
+    // the message prints address / bytes_per_address; give the byte address back
+    snprintf(buf, sizeof(buf), "count=%d first=%x", count, first * util->bytes_per_address);
+    res = std::string(buf) + " nz=" + dump_nonzero(&util->memory);
+  }
+  delete util;
+  return res;
+}
+
+static std::string cmd_sprint(const std::vector<std::string> &args)
+{
+  if (args.size() != 5) { return "bad-op"; }
+  UtilContext *util = safe_util(args[1], args[2]);
+  util->memory.high_address = (uint32_t)strtoull(args[3].c_str(), NULL, 16);
+  char *s = safe_heap_str(args[4]);
+  if (args[0] == "8") { util->print8(s); } else if (args[0] == "16") { util->print16(s); } else { util->print32(s); }
+  std::string out = capture_take();
+  free(s);
+  delete util;
+  // lines "0x<addr>: <items...> <chars>"; the memory is empty, so the character column is dots only
+  size_t digits = args[0] == "8" ? 2 : args[0] == "16" ? 4 : 8;
+  long items = 0, lines = 0;
+  std::string first = "-", last = "-";
+  size_t pos = 0;
+  while (pos < out.size())
+  {
+    size_t nl = out.find('\n', pos);
+    if (nl == std::string::npos) { nl = out.size(); }
+    std::string line = out.substr(pos, nl - pos);
+    pos = nl + 1;
+    if (line.compare(0, 2, "0x") != 0) { continue; }
+    size_t colon = line.find(':');
+    if (colon == std::string::npos) { continue; }
+    lines++;
+    char buf[32];
+    snprintf(buf, sizeof(buf), "%lx", strtoul(line.substr(2, colon - 2).c_str(), NULL, 16));
+    if (first == "-") { first = buf; }
+    last = buf;
+    std::vector<std::string> toks = split(line.substr(colon + 1));
+    for (const std::string &t : toks)
+    {
+      if (t.size() == digits && t.find_first_not_of("0123456789abcdef") == std::string::npos) { items++; }
+    }
+  }
+  if (lines == 0) { return "none"; }
+  char buf[128];
+  snprintf(buf, sizeof(buf), "items=%ld lines=%ld first=%s last=%s", items, lines, first.c_str(), last.c_str());
+  return buf;
+}
+
+static std::string safe_walk_record;
+static void safe_walk_recorder(Memory *memory, uint32_t flags, uint32_t start, uint32_t end)
+{
+  char buf[64];
+  snprintf(buf, sizeof(buf), "%s%x-%x", safe_walk_record.empty() ? "" : ",", start, end);
+  safe_walk_record += buf;
+}
+
+static std::string cmd_swalk(const std::vector<std::string> &args)
+{
+  if (args.size() != 4) { return "bad-op"; }
+  UtilContext *util = safe_util(args[0], "-");
+  if (args[1] != "-")
+  {
+    const std::string &cells = args[1];
+    size_t pos = 0;
+    while (pos < cells.size())
+    {
+      size_t end = cells.find(';', pos);
+      if (end == std::string::npos) { end = cells.size(); }
+      std::string seg = cells.substr(pos, end - pos);
+      size_t colon = seg.find(':');
+      if (colon != std::string::npos)
+      {
+        uint32_t addr = (uint32_t)strtoull(seg.substr(0, colon).c_str(), NULL, 16);
+        for (unsigned char c : unhex(seg.substr(colon + 1))) { util->memory.write8(addr++, c); }
+      }
+      pos = end + 1;
+    }
+  }
+  safe_walk_record.clear();
+  util->disasm_range = safe_walk_recorder;
+  util->disasm((uint32_t)strtoull(args[2].c_str(), NULL, 16), (uint32_t)strtoull(args[3].c_str(), NULL, 16));
+  capture_take();
+  delete util;
+  return "r=" + (safe_walk_record.empty() ? std::string("-") : safe_walk_record);
+}
+
+static std::string cmd_svalid(const std::vector<std::string> &args)
+{
+  if (args.size() != 2) { return "bad-op"; }
+  char *c = safe_heap_str(args[0]);
+  char *a = safe_heap_str(args[1]);
+  String command(c);
+  String arg(a);
+  bool ok = is_command_valid(command, arg);
+  std::string out = capture_take();
+  free(c);
+  free(a);
+  if (ok) { return "ok"; }
+  if (out.find("doesn't take an argument") != std::string::npos) { return "no-arg"; }
+  if (out.find("requires argument") != std::string::npos) { return "need-arg"; }
+  return "unknown";
+}
+
 static void register_safe()
 {
+  handlers["snum"] = cmd_snum;
+  handlers["saddr"] = cmd_saddr;
+  handlers["srange"] = cmd_srange;
+  handlers["swrite"] = cmd_swrite;
+  handlers["sprint"] = cmd_sprint;
+  handlers["swalk"] = cmd_swalk;
+  handlers["svalid"] = cmd_svalid;
   handlers["srd"] = cmd_srd;
   handlers["seekmax"] = cmd_seekmax;
   handlers["sname"] = cmd_sname;
